@@ -33,7 +33,8 @@ def cases(draw, kind):
         hs["losses"][0] = hs["losses"][0] + 1.0 + abs(hs["losses"][-1])
     calls = draw(st.integers(1, 2 if heavy else 4))
     new_losses = draw(st.lists(st.sampled_from([0.5, 1.0, 1.0, 3.0, 0.25, 7.0]), min_size=4, max_size=8))
-    return {"space": sp, "sampler": s, "history": hs, "calls": calls, "new_losses": new_losses}
+    return {"space": sp, "sampler": s, "history": hs, "calls": calls, "new_losses": new_losses,
+            "hist_dtype": draw(st.sampled_from(["float64", "float64", "float64", "float32", "int64"]))}
 
 
 def third_party(e):
@@ -48,10 +49,15 @@ def check_sampler(ctx: Ctx, case):
     sub = f"sampler_{kind}"
     space = gen.make_space(case["space"])
     pts, losses = gen.build_history(space, case["history"])
+    hd = case.get("hist_dtype", "float64")
+    if hd != "float64" and len(pts) and np.array_equal(pts.astype(hd).astype(float), pts):
+        pts = pts.astype(hd)      # the same on-grid points, handed over in another array type
+    else:
+        hd = "float64"
     d = space.dims
     stateful = kind in ("pso", "cors", "halton", "rseq")
     nontrivial = gen.space_is_offgrid(case["space"]) and (case["calls"] >= 2 or not stateful)
-    ctx.count(sub, case, nontrivial, [f"d={d}", f"calls={case['calls']}", "hist0" if len(pts) == 0 else "hist>0"])
+    ctx.count(sub, case, nontrivial, [f"d={d}", f"calls={case['calls']}", "hist0" if len(pts) == 0 else "hist>0", f"hist-{hd}"])
     sampler = gen.make_sampler(case["sampler"], max_samples=len(pts) + 4 * case["sampler"]["bs"] + 5)
     k = 0
     for call in range(case["calls"]):
@@ -70,7 +76,7 @@ def check_sampler(ctx: Ctx, case):
                      f"{(case['sampler']['bs'], d)}", sub, case)
             return
         for j in range(d):
-            ok = np.isin(out[:, j], space.param_grid[j])
+            ok = np.isin(np.asarray(out[:, j], dtype=float), space.param_grid[j])
             if not ok.all():
                 r = int(np.argmin(ok))
                 g = space.param_grid[j]
@@ -91,7 +97,7 @@ def check_sampler(ctx: Ctx, case):
             return
         nl = [case["new_losses"][(k + i) % len(case["new_losses"])] for i in range(len(out))]
         k += len(out)
-        pts = np.vstack((pts, out))
+        pts = np.vstack((pts.astype(float), np.asarray(out, dtype=float)))
         losses = np.hstack((losses, nl))
 
 
